@@ -5,7 +5,8 @@ RULE = ("pure cases: `frags` / `reasm` for fragment sizes from every class of th
         "+-1, random) and payload sizes 0,1,f-1,f,f+1,2f-1,2f,2f+1,3f,3f+1,5f+3,random, fragment arrival streams with "
         "duplicates, reordering, missing fragments and fragments of a second sample; system cases: a real writer/reader pair "
         "(reliable and best-effort) with fragmented samples under drop/dup/reorder of single fragment datagrams, reliable cases "
-        "end with a healing suffix. Non-trivial = a pure case with >= 2 fragments, or a system case with a fragmented sample, "
+        "end with a healing suffix; best-effort fragment-loss cases: two or three samples of 2-4 fragments, exactly one fragment of an "
+        "earlier sample dropped, the later ones delivered completely (FIFO, shuffled inside a sample, or between the writes). Non-trivial = a pure case with >= 2 fragments, or a system case with a fragmented sample, "
         ">= 1 fault directive and >= 1 delivery")
 ASSUMPTIONS = ["fragment size within the accepted range 8..=65000 (C38) and payload below 2^32 bytes, so the `as u16` / `as u32` "
                "casts of as_data_frag_submessage are exact (hypotheses f < 2^16, |data| < 2^32 of the theorems)",
@@ -21,6 +22,11 @@ CORPUS = [
     (["init rel vol 8", "match", "write p2400.1", "deliver 0", "deliver 298"] + heal_suffix(6), {"heal": True, "rel": True}),
     # two distant losses (DESIGN 7.1 D44): fragments 2 and 290 dropped
     (["init rel vol 8", "match", "write p2400.1", "drop 1", "drop 288"] + heal_suffix(6), {"heal": True, "rel": True}),
+    # seed C05_d exemplar: best-effort, three samples of 3, 3, 2 fragments, fragment 2 of the first lost: 2 and 3 arrive completely
+    (["init be vol 8", "match", "write p20.1", "write p17.2", "write p12.3", "drop 1", "flush"], {"rel": False}),
+    # the same with the later samples' fragments in reverse order and a duplicate
+    (["init be tl 8", "match", "write p20.1", "write p17.2", "drop 1", "deliver 0", "deliver 0", "dup 2", "deliver 2", "deliver 1",
+      "deliver 0", "deliver 0"], {"rel": False}),
     # best-effort: fragments of sn 1 interleaved with DATA 2, duplicates, reverse order
     (["init be vol 8", "match", "write p20.3", "write x0102", "dup 0", "deliver 2", "deliver 1", "deliver 0", "flush"], {"rel": False}),
 ]
@@ -66,6 +72,8 @@ def oracle(case, out):
                  if v["cause"] in ("payload-corrupted", "panic", "nackfrag-set-spans-256", "forged", "cache-rewritten")]
         # a fragmented sample that is still held must arrive once the network heals (reliable)
         viol += [v for v in liveness_oracle(case, out) if v["cause"] == "lost-fragment-never-repaired"]
+        # best-effort: a fragmented sample whose fragments all arrived is delivered, whatever happened to earlier samples
+        viol += be_complete_oracle(case, out)
     return attribute(case, viol)
 
 
@@ -137,6 +145,8 @@ def run(ctx):
         cases.append(gen_pure(r, cfg, big=(k % 25 == 0)))
     for _ in range(150 if quick else 3000):
         cases.append(gen_frag_system(r, cfg))
+    for _ in range(100 if quick else 2000):
+        cases.append(gen_be_frag_loss(r, cfg))
     count_ops(ctx, cases)
     ctx.differential(ENGINE, cases, nontrivial=nontrivial, oracle=oracle)
 
